@@ -126,6 +126,14 @@ class HolderGetArray(Contract):
     prop = ()
 
     def outcomes(self, I, ctx, a, old):
+        if getattr(a["period"], "ghost_index", None) is None:
+            # a period that is not one of the pieces (e.g. the request itself): what the holder keeps for it is not
+            # constrained by the ghost store of the pieces - it may be anything or nothing
+            env = ctx.ghost["env16"]
+            if ctx.branch(ctx.fresh_bool("other_period_known")):
+                F = z3.Function(ctx.fresh_name("OTHER"), z3.IntSort(), z3.RealSort())
+                return ("return", nparr.NArr(env.N, lambda e: Sym(F(B._z(e))), "float", "stored-for-another-period"))
+            return ("return", None)
         k = ghost_index(a["period"])
         kn, arr = ctx.ghost["store"].get(k)
         if ctx.branch(kn):
